@@ -314,7 +314,15 @@ Definition check_trace (prop : N) (t : trace) : list (N * N) :=
                   else 0 in
         if negb (c0 =? 0) then [(0, 100 + c0)]
         else check_steps prop (t_npool t) true 1 st (t_init_obs t) (t_steps t)
-  | _ => if t_init_ok t then (if (prop =? 14) || (prop =? 9) then [(0, 49)] else []) else []
+  | _ =>
+      if t_init_ok t then
+        (* the model refused an instantiation the implementation accepted: S_C09 is still evaluated on the
+           implementation's own observation, so that a concrete failing input is reported when there is one *)
+        let c0 := if prop =? 9 then s_c09 (i_stake (t_init t)) (t_npool t) (t_init_obs t) (t_init_obs t) (height (t_init_blk t))
+                  else 0 in
+        if negb (c0 =? 0) then [(0, 100 + c0)]
+        else if (prop =? 14) || (prop =? 9) then [(0, 49)] else []
+      else []
   end.
 
 Fixpoint check_traces (prop : N) (i : N) (ts : list trace) : list (N * N) :=
